@@ -100,7 +100,7 @@ CFG = {
     "coq_dirs": ["C15"],
     "n": {"quick": 1500, "thorough": 100000},
     "n_async": {"quick": 200, "thorough": 5000},
-    "shard": 100,
+    "shard": 200,
     "level": "proof",
     "stages": [vcheck.correspondence, async_stage],
     "rule": ("generated control trees (events, probes, throw, loops, try/catch/finally, JS calls, sort/forEach/getter callbacks, "
